@@ -298,10 +298,16 @@ package operator
 //@   loop 1 invariant planOK(b, best)
 //@   loop 2 invariant planOK(b, best)
 //@   modifies ghost evres
+// Order of the plans (voter-count lower bound): a voter is removed on its own only when no promotion is possible any
+// more, and demoted on its own only when neither a promotion nor an add is possible any more - a decrease of the voter
+// count that runs ahead of a pending increase would let the count fall below both the original and the requested one.
+//@ pure emptyPlan(p stepPlan) = p.promote == nil && p.demote == nil && p.add == nil && p.remove == nil
 //@ func (*Builder).peerPlan
 //@   props C08
 //@   requires b != nil && b.cluster != nil && bInv(b)
 //@   ensures [executable] planOK(b, result)
+//@   at planRemovePeer 1 assert [a-voter-is-removed-only-after-every-possible-promotion] emptyPlan(callres("planPromotePeer", 1))
+//@   at planDemotePeer 1 assert [a-voter-is-demoted-only-after-every-possible-add-and-promotion] emptyPlan(callres("planPromotePeer", 1)) && emptyPlan(callres("planAddPeer", 1))
 //@   modifies ghost evres
 
 // What is still to do agrees with the requested placement, and every peer that is not the subject of a pending change
